@@ -121,7 +121,9 @@ def fpv_bits(ast, S):
 # ---------------------------------------------------------------------------------------------
 
 SIGMA = ["a", "b", "0", "5", "-", ".", "(", "\\", "\x00", "\n", "é", "中", "\U0001f600", "u", "{", "}", "*", "[", "+", "?", "$", "^", "|", ")", " "]
-SPECIAL_STRINGS = ["\\u{48}", "a.b", "-5", "007", "12", "abc", "aa", "ab", "ba", "\\x41", "a(", "(a", ".*", "a\x00b", "éé", "5a", "+5", " 5", "5 ", "99999999999999999999", "\\u{1F600}", "\\u0041"]
+SPECIAL_STRINGS = ["\\u{48}", "a.b", "-5", "007", "12", "abc", "aa", "ab", "ba", "\\x41", "a(", "(a", ".*", "a\x00b", "éé", "5a", "+5", " 5", "5 ", "99999999999999999999", "\\u{1F600}", "\\u0041",
+                   # digits / numerics outside ASCII, int() conveniences, combining and plane-boundary characters
+                   "\u0663", "1\u0662", "\uff15\uff10", "\u00b2", "1_0", "\t5", "5\n", "e\u0301", "\uffff", "\U00010000"]
 
 
 def string_alphabet(size="full"):
